@@ -10,7 +10,8 @@
 From Coq Require Import ZArith QArith List String Bool.
 Import ListNotations.
 Require Import SC3.model.ProtoGrammar SC3.model.Proto SC3.gen.Gen_proto.
-Require Import SC3.proofs.C17_bind SC3.proofs.C17_life SC3.proofs.C17_conform SC3.proofs.C17_run.
+Require Import SC3.model.ProtoMulti.
+Require Import SC3.proofs.C17_bind SC3.proofs.C17_life SC3.proofs.C17_conform SC3.proofs.C17_run SC3.proofs.C17_multi.
 Open Scope string_scope.
 Open Scope Z_scope.
 Open Scope list_scope.
@@ -207,6 +208,42 @@ Theorem bind_raises_sends_nothing : forall V s body k,
 Proof. exact bind_raise_nothing. Qed.
 
 (* ------------------------------------------------------------------------------------ *)
+(* Several Server objects (model/ProtoMulti.v): one copy of the client state per server, every op is executed by the
+   copy of the server it addresses.  What a server's address receives in a two-server history is exactly the
+   single-server run of the ops addressed to it, so every theorem above holds per server whatever the other one is
+   asked to do in between; an op never touches the other server's objects, allocator blocks or open bind blocks and
+   never sends to the other server's address.  (That the LIBRARY behaves like this product is the business of the
+   two-server correspondence: harness/props/C17.py, split_multi.) *)
+Theorem two_server_run_projects_to_single_server_runs : forall V k ops s,
+  seen_by k (fst (run2 V s ops)) = fst (run V (comp k s) (ops_of k ops)) /\
+  comp k (snd (run2 V s ops)) = snd (run V (comp k s) (ops_of k ops)).
+Proof. exact run2_projection. Qed.
+
+Theorem op_leaves_other_server_untouched : forall V s o,
+  comp (negb (fst o)) (fst (step2 V s o)) = comp (negb (fst o)) s /\ fst (fst (snd (step2 V s o))) = fst o.
+Proof. exact step2_other_untouched. Qed.
+
+Theorem emitted_conform_two_servers : forall n ops L0 L1 s,
+  Inv L0 (fst s) -> Inv L1 (snd s) ->
+  wf_ops n (fst s) (ops_of false ops) = true -> wf_ops n (snd s) (ops_of true ops) = true ->
+  forall k, Forall (fun x => all_conform (fst x) = true) (seen_by k (fst (run2 repaired s ops))).
+Proof. exact two_servers_conform. Qed.
+
+Example two_server_example :
+  fst (run2 repaired (st0, st0)
+         [(false, OGroup false 1000 TgNone (ActS "addToHead")); (false, OBindEnter);
+          (true, OSynth SPaused 1000 "default" PNone TgServer (ActI 1));
+          (false, ONodeRun 0 (PBool false)); (true, OBindEnter); (false, OBindExit);
+          (true, ONodeFree 0 true); (true, OBindExit)]) =
+  [ (false, [WMsg ("/g_new", [AInt 1000; AInt 0; AInt 1])], None); (false, [], None);
+    (true, [WBundle PNone [("/s_new", [AStr "default"; AInt 1000; AInt 1; AInt 1]); ("/n_run", [AInt 1000; AInt 0])]], None);
+    (false, [], None); (true, [], None);
+    (false, [WBundle (PInt 0) [("/n_run", [AInt 1000; AInt 0])]], None);
+    (true, [], None);
+    (true, [WBundle (PInt 0) [("/n_free", [AInt 1000])]], None) ].
+Proof. vm_compute. reflexivity. Qed.
+
+(* ------------------------------------------------------------------------------------ *)
 (* non-vacuity: the model computes, the hypotheses are satisfiable *)
 Example bind_example :
   fst (run repaired st0
@@ -272,6 +309,7 @@ Example chain_example : chain 0 [(0, 1); (1, 3); (8, 2)].
 Proof. simpl. repeat split; discriminate. Qed.
 
 Print Assumptions emitted_conform.
+Print Assumptions emitted_conform_two_servers.
 Print Assumptions ids_only_allocated.
 Print Assumptions bind_is_one_bundle_in_issue_order.
 Print Assumptions free_emits_each_owned_id_once_and_returns_it.
